@@ -482,6 +482,20 @@ func (c *FnCtx) equal(st *State, x, y Val) string {
 		if f, ok := cmpFold(token.EQL, x.S, y.S); ok {
 			return f
 		}
+		if x.K == kStr {
+			// string(bytes) compared with a literal: spelled out byte by byte
+			for _, pr := range [][2]string{{x.S, y.S}, {y.S, x.S}} {
+				src, ok1 := c.strSrc[pr[0]]
+				txt, ok2 := c.litText[pr[1]]
+				if ok1 && ok2 && len(txt) <= 64 {
+					cs := []string{eq(src[2], num(int64(len(txt))))}
+					for i := 0; i < len(txt); i++ {
+						cs = append(cs, eq(sx("select", src[0], add(src[1], num(int64(i)))), num(int64(txt[i]))))
+					}
+					return and(cs...)
+				}
+			}
+		}
 		return eq(x.S, y.S)
 	case kIface:
 		if y.K != kIface {
@@ -773,6 +787,10 @@ func (c *FnCtx) intBinop(st *State, op token.Token, x, y string, rt types.Type, 
 		if ylit && yl.Sign() >= 0 && !ii.signed {
 			return c.def("a", "Int", sub(x, maskTerm(x, yl)))
 		}
+		if ylit && yl.Sign() >= 0 && ii.signed && ii.bits > 0 {
+			// two's complement: clearing bits of C subtracts (x & C)
+			return c.def("a", "Int", sub(x, maskTerm(sx("mod", x, pow2s(ii.bits)), yl)))
+		}
 		r := c.def("a", "Int", sub(x, sx("band", x, y)))
 		c.assume(st, ii.inRange(r))
 		if !ii.signed {
@@ -874,7 +892,18 @@ func (c *FnCtx) convert(fr *frame, st *State, t *ssa.Convert) Val {
 		n := c.declare("s", "Str")
 		c.assumeRaw(eq(sx("slen", n), x.Len))
 		rowt := c.defAlways("row", "(Array Int Int)", sx("select", h, x.Ref))
-		c.assumeRaw(fmt.Sprintf("(forall ((i Int)) (! (=> (and (<= 0 i) (< i %s)) (= (sat %s i) (select %s (+ %s i)))) :pattern ((sat %s i))))", x.Len, n, rowt, x.Off, n))
+		if ln, lit := isNumLit(x.Len); lit && ln.IsInt64() && ln.Int64() <= 32 {
+			// short constant length: ground facts instead of a quantifier
+			for i := int64(0); i < ln.Int64(); i++ {
+				c.assumeRaw(eq(sx("sat", n, num(i)), sx("select", rowt, add(x.Off, num(i)))))
+			}
+		} else {
+			c.assumeRaw(fmt.Sprintf("(forall ((i Int)) (! (=> (and (<= 0 i) (< i %s)) (= (sat %s i) (select %s (+ %s i)))) :pattern ((sat %s i))))", x.Len, n, rowt, x.Off, n))
+		}
+		if c.strSrc == nil {
+			c.strSrc = map[string][3]string{}
+		}
+		c.strSrc[n] = [3]string{rowt, x.Off, x.Len}
 		return strVal(to, n)
 	case fk == kStr && tk == kStr:
 		return strVal(to, x.S)
